@@ -73,7 +73,7 @@ func ZZ_C19_Distribution() {
 		}
 		var power int64
 		if vrt.Thorough() {
-			power = int64(vrt.Uint64Below("power"+n, 8))
+			power = [][]int64{{3, 5}, {1, 1}, {7, 1}}[vrt.Choose("powers", 3)][i]
 		} else {
 			power = [][]int64{{3, 5}, {1, 1}}[vrt.Choose("powers", 2)][i] // quick tier: fixed power splits
 		}
@@ -92,6 +92,10 @@ func ZZ_C19_Distribution() {
 	var txs []*types.SendToExternal
 	for i := 0; i < nt; i++ {
 		ste := zzSteNamed("t"+string(rune('0'+i)), chain, tokId, 1, false)
+		if i == 1 {
+			// second transfer: fee from a fixed set (a second symbolic fee makes the pro-rata refund fee*fee/(fee+fee) non-linear)
+			ste.Fee.Amount = sdk.NewInt([]int64{0, 7, 31}[vrt.Choose("fee1.fixed", 3)])
+		}
 		ste.RefundChainId = []string{"minter", "hub"}[vrt.Choose("refundchain"+string(rune('0'+i)), 2)]
 		ste.RefundAddress = "Mx000000000000000000000000000000000000000" + string(rune('1'+i))
 		for _, o := range txs {
